@@ -1,6 +1,7 @@
 package g_disp
 
 import (
+	"context"
 	"os"
 	"testing"
 
@@ -21,6 +22,20 @@ func newServer(serverID string, debug bool, version string) *vgirpc.Server {
 		srv.SetProtocolVersion(version)
 	}
 	lib.RegisterScripted(srv)
+	// u_open / s_open: handlers that try to open a sticky session and hand back
+	// whatever ctx.OpenSession answered (used for the draining refusal)
+	vgirpc.Unary(srv, "u_open", func(_ context.Context, ctx *vgirpc.CallContext, p lib.ScriptParams) (string, error) {
+		if err := ctx.OpenSession(&struct{}{}, 0); err != nil {
+			return "", err
+		}
+		return "opened", nil
+	})
+	vgirpc.Producer(srv, "s_open", lib.OutSchema, func(_ context.Context, ctx *vgirpc.CallContext, p lib.ScriptParams) (*vgirpc.StreamResult, error) {
+		if err := ctx.OpenSession(&struct{}{}, 0); err != nil {
+			return nil, err
+		}
+		return nil, &vgirpc.RpcError{Type: "RuntimeError", Message: "session opened although the server is draining"}
+	})
 	return srv
 }
 
